@@ -749,7 +749,8 @@ func (d *headerParamDecoder) DecodeArray(param string, sm *openapi3.Serializatio
 		return nil, ok, nil
 	}
 
-	val, err := parseArray(strings.Split(raw[0], ","), schema)
+	// several field lines of one name are one comma separated list (RFC 9110, 5.3)
+	val, err := parseArray(strings.Split(strings.Join(raw, ","), ","), schema)
 	return val, ok, err
 }
 
@@ -767,7 +768,8 @@ func (d *headerParamDecoder) DecodeObject(param string, sm *openapi3.Serializati
 		// HTTP request does not contain a corresponding header.
 		return nil, ok, nil
 	}
-	props, err := propsFromString(raw[0], ",", valueDelim)
+	// several field lines of one name are one comma separated list (RFC 9110, 5.3)
+	props, err := propsFromString(strings.Join(raw, ","), ",", valueDelim)
 	if err != nil {
 		return nil, ok, err
 	}
